@@ -125,11 +125,16 @@ fn repair(t: &mut Tree) {
     }
 }
 
+thread_local! {
+    static HUGE: std::cell::Cell<bool> = const { std::cell::Cell::new(false) };
+}
+
 fn gen_tree(src: &mut Src, depth: usize, universe: &[Res]) -> Tree {
     let leaf = depth >= 5 || src.chance(if depth == 0 { 2 } else { 7 }, 16);
     if leaf {
-        let nw = src.pick(3);
-        let nr = src.pick(3);
+        let many = HUGE.with(|h| h.get());
+        let nw = src.pick(if many { 5 } else { 3 });
+        let nr = src.pick(if many { 10 } else { 3 });
         let writes = (0..nw).map(|_| universe[src.pick(universe.len())]).collect();
         let reads = (0..nr).map(|_| universe[src.pick(universe.len())]).collect();
         return Tree::Leaf { reads, writes };
@@ -371,9 +376,18 @@ impl Prop for C16 {
         let inside_pool = src.chance(6, 16);
         let want_plant = src.chance(5, 16);
         let repeats = 1 + src.pick(3) as u8;
-        let u = 2 + src.pick(10);
-        let start = src.pick(32);
-        let universe: Vec<Res> = (0..u).map(|i| Res::from_index((start + i * 5) % 32)).collect();
+        // one case in 8 draws from a huge universe (up to 96 distinct resource ids: dynamic ids up to
+        // 11 on each of the 8 types), so that a par node can see more than 64 distinct ids
+        let huge = src.chance(2, 16);
+        let universe: Vec<Res> = if huge {
+            let u = 60 + src.pick(37);
+            (0..u).map(|i| Res::new(i % 8, i / 8)).collect()
+        } else {
+            let u = 2 + src.pick(10);
+            let start = src.pick(32);
+            (0..u).map(|i| Res::from_index((start + i * 5) % 32)).collect()
+        };
+        HUGE.with(|h| h.set(huge));
         let mut tree = gen_tree(src, 0, &universe);
         repair(&mut tree);
         let plant = if want_plant {
@@ -421,6 +435,13 @@ impl Prop for C16 {
         };
         let root = b.build(&case.tree, &mut vec![]);
         st.class(&format!("depth_{}", depth(&case.tree)));
+        {
+            let (r, w) = access(&case.tree);
+            let distinct: BTreeSet<Res> = r.union(&w).cloned().collect();
+            if distinct.len() > 64 {
+                st.class("trees_with_more_than_64_distinct_resource_ids");
+            }
+        }
         match (&case.plant, root, b.rejected) {
             (Some(pl), None, Some((node, child, msg))) => {
                 if node != pl.node || child != pl.child {
@@ -655,6 +676,72 @@ impl<'a, const N: usize> System<'a> for Z<N> {
     }
 }
 
+/// unit-struct system with `()` system data: its only effect is a process-wide counter
+pub struct ZU<const N: usize>;
+static ZU_RUNS: [AtomicU64; 4] = [
+    AtomicU64::new(0),
+    AtomicU64::new(0),
+    AtomicU64::new(0),
+    AtomicU64::new(0),
+];
+impl<'a, const N: usize> System<'a> for ZU<N> {
+    type SystemData = ();
+    fn run(&mut self, _: ()) {
+        let b = ZCLOCK.fetch_add(1, SeqCst);
+        ZU_RUNS[N].fetch_add(1, SeqCst);
+        let e = ZCLOCK.fetch_add(1, SeqCst);
+        ZLOG.lock().unwrap().push((100 + N, b, e));
+    }
+}
+
+fn run_static_unit<T>(tree: T, leaves: &[usize], seq_pairs: &[(usize, usize)], case: &C16StaticCase, lane: usize) -> Result<(), Fail>
+where
+    T: for<'a> RunWithPool<'a> + Send,
+{
+    let threads = case.threads.clamp(1, 16) as usize;
+    let tp = pool(lane, threads);
+    let mut ps = ParSeq::new(tree, tp.clone());
+    let mut world = World::empty();
+    ps.setup(&mut world);
+    for rep in 1..=case.repeats.max(1) as u64 {
+        ZLOG.lock().unwrap().clear();
+        let before: Vec<u64> = leaves.iter().map(|l| ZU_RUNS[*l].load(SeqCst)).collect();
+        let r = catch_unwind(AssertUnwindSafe(|| {
+            if case.inside_pool {
+                tp.install(|| ps.dispatch(&world))
+            } else {
+                ps.dispatch(&world)
+            }
+        }));
+        if let Err(p) = r {
+            return Err(Fail::new(format!("dispatch panicked: {}", panic_msg(&p))));
+        }
+        for (i, &l) in leaves.iter().enumerate() {
+            let got = ZU_RUNS[l].load(SeqCst) - before[i];
+            if got != 1 {
+                return Err(Fail::new(format!(
+                    "zero-sized leaf {} without system data ran {} times in dispatch {}",
+                    l, got, rep
+                )));
+            }
+        }
+        let log = ZLOG.lock().unwrap().clone();
+        for &(a, b) in seq_pairs {
+            let wa = log.iter().find(|x| x.0 == 100 + a);
+            let wb = log.iter().find(|x| x.0 == 100 + b);
+            if let (Some(wa), Some(wb)) = (wa, wb) {
+                if !(wa.2 < wb.1) {
+                    return Err(Fail::new(format!(
+                        "leaf {} (earlier child of a seq node) had not finished when leaf {} began",
+                        a, b
+                    )));
+                }
+            }
+        }
+    }
+    Ok(())
+}
+
 #[derive(Clone, Debug, Serialize, Deserialize)]
 pub struct C16StaticCase {
     pub shape: u8,
@@ -732,14 +819,14 @@ impl Prop for C16Static {
         "C16"
     }
     fn rule(&self) -> &'static str {
-        "statically typed trees written with the real par! / seq! macros whose leaves are unit-struct (zero-sized) systems, so that whole subtrees are zero-sized types: 8 fixed shapes (flat par, flat seq, par of seqs, seq of pars, par of pars, three-deep mixes) x pool size {1,2,3,4,8,16} x dispatch from outside / inside the pool x 1..3 dispatches; oracle: setup reaches every leaf, every leaf runs exactly once per dispatch, seq order holds; non-trivial = every case; distinct = case hash. Runs on one lane (the leaves log into a process-wide table)."
+        "statically typed trees written with the real par! / seq! macros whose leaves are unit-struct (zero-sized) systems, so that whole subtrees are zero-sized types: 10 fixed shapes (flat par, flat seq, par of seqs, seq of pars, par of pars, three-deep mixes; two of them over leaves with `()` system data whose only effect is a process-wide counter) x pool size {1,2,3,4,8,16} x dispatch from outside / inside the pool x 1..3 dispatches; oracle: setup reaches every leaf, every leaf runs exactly once per dispatch, seq order holds; non-trivial = every case; distinct = case hash. Runs on one lane (the leaves log into a process-wide table)."
     }
     fn stream_len(&self) -> usize {
         8
     }
     fn gen(&self, src: &mut Src) -> C16StaticCase {
         C16StaticCase {
-            shape: src.pick(8) as u8,
+            shape: src.pick(10) as u8,
             threads: [1u8, 2, 3, 4, 8, 16][src.pick(6)],
             inside_pool: src.chance(6, 16),
             repeats: 1 + src.pick(3) as u8,
@@ -748,7 +835,15 @@ impl Prop for C16Static {
     fn check(&self, case: &C16StaticCase, lane: usize, st: &mut Stats) -> Result<(), Fail> {
         use shred::{par, seq};
         st.class(&format!("shape_{}", case.shape));
-        let r = match case.shape % 8 {
+        let r = match case.shape % 10 {
+            8 => run_static_unit(
+                par![ZU::<0>, seq![ZU::<1>, ZU::<2>,], ZU::<3>,],
+                &[0, 1, 2, 3],
+                &[(1, 2)],
+                case,
+                lane,
+            ),
+            9 => run_static_unit(seq![ZU::<0>, par![ZU::<1>, ZU::<2>,],], &[0, 1, 2], &[(0, 1), (0, 2)], case, lane),
             0 => run_static(par![Z::<0>, Z::<1>, Z::<2>,], &[0, 1, 2], &[], case, lane),
             1 => run_static(seq![Z::<0>, Z::<1>, Z::<2>,], &[0, 1, 2], &[(0, 1), (1, 2), (0, 2)], case, lane),
             2 => run_static(
